@@ -18,6 +18,14 @@ CHECKS = {
    text="Concurrent connections send fragmented pipelines (depth 1-300) of every request class to the real proxy in front of 3-6 simulated nodes that echo what they received, with PRNG reply delays and consistent re-shards; the k-th parsed reply must be the pure-function expected reply of the k-th request, sentinel proves no extra/missing reply. Evidence counts backend-completion inversions and redirects actually observed.",
    note="Trusted: simulated echo nodes, harness RESP codec. Race reports are deciding only inside proc/redis/request.go.",
    ref="DESIGN.md section 4 C01"),
+ "C03": dict(level="exploration", technique="reference-model oracle (single-server refredis) over sequential PRNG programs; porcupine linearizability per key over concurrent histories; zero-redirect node-log monitor; -race child with scoped reports",
+   text="Mode A: every reply of PRNG programs over the documented command table (1-16 connections, 1-8 masters, degenerate hash tags, binary keys/values, buffer-threshold lengths) equals the single-server reference byte for byte and the union of node stores equals the reference's final state; Mode B: concurrent hot-key histories are linearizable per key (porcupine, refredis as step function); node log must show zero MOVED/ASK once routing is loaded.",
+   note="Trusted: internal/refredis (same engine as node store, so semantics cancel), internal/fakecluster slot rule (bitwise CRC16), porcupine. Unmodelled commands are echo on both sides (routing/relay only).",
+   ref="DESIGN.md section 4 C03"),
+ "C14": dict(level="exploration", technique="no-arrival / role-of-receiver monitors over simulated node logs joined by unique ids, against an independent Redis 5.0 command table; routing rule also judged during a continuous slot-refresh storm",
+   text="Gate: every Redis 5.0 command name, the documented unsupported list, systematic near-misses of every supported name (suffix/prefix/truncation/Unicode-fold) and PRNG names in three letter cases x 0-5 args must be rejected without any backend arrival (or answered locally); routing: every forwarded command that can modify data must arrive at the master owning the reference slot under MASTER/REPLICA/BOTH, reads only at that master or its replicas as the strategy permits, also while the table is refreshed every 2 ms.",
+   note="Trusted: cmd/vcheck/spec.go (Redis 5.0 flags, documented unsupported list). Commands that are valid keyed Redis commands but undocumented either way are judged by the routing rule only.",
+   ref="DESIGN.md section 4 C14"),
 }
 NOT_BUILT = "check not built yet in this session (design in DESIGN.md section 4)"
 
